@@ -33,9 +33,10 @@ Definition holds (s : state) (t : tid) (m : nat) : Prop :=
   end.
 Definition lock_inv (s : state) : Prop := forall t m, holds s t m -> ulock s m = Some t.
 (* the message of a running broadcast, and a built initial update, carry the cached value *)
-Definition val_inv (s : state) : Prop :=
-  (forall u p v all pend, u_pc (uth s u) = USend p v all pend -> cache s p = v) /\
-  (forall c sc m i v todo g, c_pc (cth s c) = CSendU sc m i v todo g -> cache s (m, i) = v).
+Definition val1 (s : state) : Prop := forall u p v all pend, u_pc (uth s u) = USend p v all pend -> cache s p = v.
+Definition val2 (s : state) : Prop :=
+  forall c sc m i v todo g, c_pc (cth s c) = CSendU sc m i v todo g -> cache s (m, i) = v.
+Definition val_inv (s : state) : Prop := val1 s /\ val2 s.
 
 Lemma not_in_bcast_next : forall s u p, in_bcast (next_upd s u) u p -> False.
 Proof.
@@ -121,7 +122,7 @@ Proof.
       apply (lock_release s _ (TC a) m); auto; [unfold holds; rewrite H0; auto | | unf; auto].
       intros t' m' K. other_holder a N.
       * exfalso; eapply not_holds_enter; eauto.
-      * split; [congruence |]. revert K; apply holds_C; rewrite cth_enter_other by auto; unf; apply upd_other; auto.
+      * split; [congruence |]. revert K; apply holds_C; rewrite cth_enter_other by auto; unf; auto.
       * split; [discriminate |]. revert K; apply holds_U; unf; auto.
     + (* initial update *) apply (lock_same s); auto. intros t' m' K. other_holder a N.
       * unfold holds in *; unf. rewrite upd_same in K; simpl in K. rewrite H0. auto.
@@ -173,30 +174,73 @@ Proof.
         -- revert K; apply holds_U; unf; apply upd_other; auto.
 Qed.
 
+Lemma val2_upd : forall s s' a, val2 s -> cache s' = cache s ->
+  (forall c0, c0 <> a -> cth s' c0 = cth s c0) ->
+  (forall sc m i v todo g, c_pc (cth s' a) = CSendU sc m i v todo g -> cache s (m, i) = v) -> val2 s'.
+Proof.
+  intros s s' a V E O A c sc m i v todo g B. rewrite E. destruct (Nat.eq_dec c a) as [-> | N].
+  - eapply A; eauto.
+  - rewrite O in B by auto. eapply V; eauto.
+Qed.
+Lemma not_csendu_enter : forall s c sc g sc' m i v todo g', c_pc (cth (enter_groups s c sc g) c) = CSendU sc' m i v todo g' -> False.
+Proof. intros. destruct (cth_enter_self s c sc g) as [_ [[_ E] | [_ E]]]; rewrite E in H; discriminate. Qed.
+
+Ltac v2simple a V2 :=
+  eapply (val2_upd _ _ a); [exact V2 | unf; auto | intros; unf; rewrite ?upd_other by auto; auto
+                          | intros *; unf; rewrite ?upd_same; simpl; try discriminate].
+Ltac v2enter a V2 :=
+  eapply (val2_upd _ _ a); [exact V2 | unf; auto | intros; rewrite cth_enter_other by auto; unf; rewrite ?upd_other by auto; auto
+                          | intros * B; exfalso; eapply not_csendu_enter; eauto].
+
 Lemma val_inv_step : forall nd s st, lock_inv s -> val_inv s -> val_inv (cstep nd s st).
 Proof.
-  intros nd s [[a | u] x] L V.
-  - destruct (conn_step_frame nd s a x) as [E1 [E2 _]]. unfold val_inv in *. rewrite E1, E2. auto.
-  - apply (cstep_cases nd s (TU u, x)); simpl; intros; auto; try discriminate; inversion H; subst u0; clear H;
-      unfold val_inv, release in *; intros u' q w al pe B.
+  intros nd s [[a | u] x] L [V1 V2].
+  - destruct (conn_step_frame nd s a x) as [E1 [E2 _]]. split; [unfold val1; rewrite E1, E2; auto |]. clear E1 E2.
+    apply (cstep_cases nd s (TC a, x)); simpl; auto; try (intros; discriminate).
+    + intros c HT HPC. inversion HT; subst c. v2simple a V2.
+    + intros c rest HT HPC HSC. inversion HT; subst c. v2simple a V2.
+    + intros c r rest HT HPC HSC HNC. inversion HT; subst c. v2simple a V2.
+    + intros c r HT HPC HDL. inversion HT; subst c.
+      apply handle_cases; intros; subst r; try (v2simple a V2; fail). v2enter a V2.
+    + intros c sc m rest HT HPC HUL. inversion HT; subst c. v2enter a V2.
+    + intros c sc m i todo rest HT HPC HUL. inversion HT; subst c. v2simple a V2.
+    + intros c sc m i todo rest HT HPC. inversion HT; subst c. v2simple a V2. intros B; inversion B; subst; auto.
+    + intros c sc m i v rest HT HPC. inversion HT; subst c. v2enter a V2.
+    + intros c sc m i v j todo rest HT HPC. inversion HT; subst c. v2simple a V2.
+    + intros c r HT HPC. inversion HT; subst c. v2simple a V2.
+  - assert (NC : forall p, ulock s (fst p) = None -> forall c sc m i v todo g, c_pc (cth s c) = CSendU sc m i v todo g -> (m, i) <> p).
+    { intros p UL c sc m i v todo g B E. subst p. assert (X : ulock s m = Some (TC c)) by (apply L; unfold holds; rewrite B; auto).
+      simpl in UL. congruence. }
+    assert (NU : forall p, ulock s (fst p) = None -> forall u' v all pend, u_pc (uth s u') = USend p v all pend -> False).
+    { intros p UL u' v all pend B. assert (X : ulock s (fst p) = Some (TU u')) by (apply L; exists p; split; auto; right; eauto).
+      congruence. }
+    apply (cstep_cases nd s (TU u, x)); simpl; [split; auto | ..]; intros; try discriminate; inversion H; subst u0; clear H;
+      unfold release in *; (split; [unfold val1 in *; intros u' q w al pe B | unfold val2 in *; intros c0 sc0 m0 i0 v0 todo0 g0 B]).
     + destruct (Nat.eq_dec u' u) as [-> | N]; [exfalso; eapply not_usend_next; eauto |].
-      rewrite uth_next_upd_other in B by auto. unf. eapply V; eauto.
+      rewrite uth_next_upd_other in B by auto. unf. eapply V1; eauto.
+    + unf. eapply V2; eauto.
     + unf. destruct (Nat.eq_dec u' u) as [-> | N]; [rewrite !upd_same in B; discriminate |].
-      rewrite !upd_other in B by auto. rewrite updp_other; [eapply V; eauto |].
-      intros ->. assert (X : ulock s (fst p) = Some u') by (apply L; right; eauto). congruence.
+      rewrite !upd_other in B by auto. rewrite updp_other; [eapply V1; eauto |].
+      intros ->. eapply NU; eauto.
+    + unf. rewrite updp_other; [eapply V2; eauto |]. eapply NC; eauto.
     + destruct (Nat.eq_dec u' u) as [-> | N]; [exfalso; eapply not_usend_next; eauto |].
-      rewrite uth_next_upd_other in B by auto. unf. rewrite upd_other in B by auto. rewrite updp_other; [eapply V; eauto |].
-      intros ->. assert (X : ulock s (fst p) = Some u') by (apply L; right; eauto). congruence.
+      rewrite uth_next_upd_other in B by auto. unf. rewrite upd_other in B by auto. rewrite updp_other; [eapply V1; eauto |].
+      intros ->. eapply NU; eauto.
+    + unf. rewrite updp_other; [eapply V2; eauto |]. eapply NC; eauto.
     + destruct (Nat.eq_dec u' u) as [-> | N]; [exfalso; eapply not_usend_next; eauto |].
-      rewrite uth_next_upd_other in B by auto. unf. eapply V; eauto.
+      rewrite uth_next_upd_other in B by auto. unf. eapply V1; eauto.
+    + unf. eapply V2; eauto.
     + unf. destruct (Nat.eq_dec u' u) as [-> | N].
       * rewrite upd_same in B; simpl in B. inversion B; subst; auto.
-      * rewrite upd_other in B by auto. eapply V; eauto.
+      * rewrite upd_other in B by auto. eapply V1; eauto.
+    + unf. eapply V2; eauto.
     + destruct (Nat.eq_dec u' u) as [-> | N]; [exfalso; eapply not_usend_next; eauto |].
-      rewrite uth_next_upd_other in B by auto. unf. eapply V; eauto.
+      rewrite uth_next_upd_other in B by auto. unf. eapply V1; eauto.
+    + unf. eapply V2; eauto.
     + unf. destruct (Nat.eq_dec u' u) as [-> | N].
-      * rewrite upd_same in B; simpl in B. inversion B; subst. eapply V; eauto.
-      * rewrite upd_other in B by auto. eapply V; eauto.
+      * rewrite upd_same in B; simpl in B. inversion B; subst. eapply V1; eauto.
+      * rewrite upd_other in B by auto. eapply V1; eauto.
+    + unf. eapply V2; eauto.
 Qed.
 
 (* ---- freshness *)
@@ -204,22 +248,14 @@ Definition fresh_at (s : state) (c : conn) (p : pid) : Prop :=
   last_upd p (logs s c) = Some (cache s p)
   \/ (exists u, u_pc (uth s u) = UBuild p)
   \/ (exists u v all pend, u_pc (uth s u) = USend p v all pend /\ In c pend)
-  \/ match c_pc (cth s c) with
-     | CBuild _ todo => In p todo
-     | CSendU _ q v todo => In p todo \/ (q = p /\ v = cache s p)
-     | _ => False
-     end.
+  \/ cflight s c p.
 Definition fresh_inv (nd : node) (s : state) : Prop :=
   forall c p, listens s c p = true -> exported nd p = true -> fresh_at s c p.
-
-(* the step sends a snapshot message that is older than the cache *)
-Definition stale_send (s : state) (st : tid * conn) : Prop :=
-  exists c sc p v todo, fst st = TC c /\ c_pc (cth s c) = CSendU sc p v todo /\ v <> cache s p.
 
 Lemma fresh_at_frame : forall s s' c p,
   logs s' c = logs s c -> cache s' = cache s -> uth s' = uth s -> cth s' c = cth s c ->
   fresh_at s c p -> fresh_at s' c p.
-Proof. intros s s' c p E1 E2 E3 E4 F. unfold fresh_at in *. rewrite E1, E2, E3, E4. auto. Qed.
+Proof. intros s s' c p E1 E2 E3 E4 F. unfold fresh_at, cflight in *. rewrite E1, E2, E3, E4. auto. Qed.
 
 (* the three disjuncts that do not depend on the own program counter *)
 Definition fresh3 (s : state) (c : conn) (p : pid) : Prop :=
@@ -228,61 +264,70 @@ Definition fresh3 (s : state) (c : conn) (p : pid) : Prop :=
   \/ (exists u v all pend, u_pc (uth s u) = USend p v all pend /\ In c pend).
 Lemma fresh3_fresh : forall s c p, fresh3 s c p -> fresh_at s c p.
 Proof. unfold fresh3, fresh_at; tauto. Qed.
+Lemma fresh_split : forall s c p, fresh_at s c p -> fresh3 s c p \/ cflight s c p.
+Proof. unfold fresh3, fresh_at; tauto. Qed.
 
-Lemma fresh_own_step : forall nd s c x, fresh_inv nd s -> ~ stale_send s (TC c, x) ->
+Lemma fresh_enter : forall s c sc g p, fresh3 s c p \/ In p (flat g) -> fresh_at (enter_groups s c sc g) c p.
+Proof.
+  intros s c sc g p [F | F].
+  - apply fresh3_fresh. unfold fresh3 in *. rewrite logs_enter, cache_enter, uth_enter. auto.
+  - unfold fresh_at, cflight. right; right; right.
+    destruct (cth_enter_self s c sc g) as [_ [[-> E] | [G E]]]; rewrite E; simpl; auto.
+Qed.
+
+Lemma fresh_own_step : forall nd s c x, val_inv s -> fresh_inv nd s ->
   forall p, listens (cstep nd s (TC c, x)) c p = true -> exported nd p = true -> fresh_at (cstep nd s (TC c, x)) c p.
 Proof.
-  intros nd s c x I G p.
+  intros nd s c x [_ V2] I p.
   apply (cstep_cases nd s (TC c, x)); simpl; try (intros; discriminate).
   - intros LS EX. apply I; auto.
   - (* start *) intros c0 HT HPC LS EX. inversion HT; subst c0.
-    assert (F := I c p LS EX). unfold fresh_at in *; unf. rewrite upd_same; simpl. rewrite HPC in F. tauto.
+    assert (F := I c p LS EX). unfold fresh_at, cflight in *; unf. rewrite upd_same; simpl. rewrite HPC in F. tauto.
   - (* close *) intros c0 rest HT HPC HSC LS EX. inversion HT; subst c0.
     exfalso. rewrite (listens_ext (reset s c)) in LS by reflexivity. rewrite listens_reset_self in LS. discriminate.
   - (* request *) intros c0 r rest HT HPC HSC HNC LS EX. inversion HT; subst c0.
-    assert (F := I c p LS EX). unfold fresh_at in *; unf. rewrite !upd_same; simpl.
+    assert (F := I c p LS EX). unfold fresh_at, cflight in *; unf. rewrite !upd_same; simpl.
     rewrite last_upd_app. rewrite HPC in F. tauto.
   - (* handler *) intros c0 r HT HPC HDL. inversion HT; subst c0.
     apply handle_cases.
     + intros HR LS EX. exfalso. rewrite (listens_ext (reset s c)) in LS by reflexivity. rewrite listens_reset_self in LS. discriminate.
-    + intros sc HR LS EX. assert (F := I c p LS EX). unfold fresh_at in *; unf. rewrite upd_same; simpl. rewrite HPC in F. tauto.
+    + intros sc HR LS EX. assert (F := I c p LS EX). unfold fresh_at, cflight in *; unf. rewrite upd_same; simpl. rewrite HPC in F. tauto.
     + intros sc HR LS EX. rewrite (listens_ext (unregister s c sc)) in LS by reflexivity. apply listens_unregister_le in LS.
-      assert (F := I c p LS EX). unfold fresh_at in *; unf. rewrite upd_same; simpl. rewrite HPC in F. tauto.
-    + intros sc HR LS EX. assert (F := I c p LS EX). unfold fresh_at in *; unf. rewrite upd_same; simpl. rewrite HPC in F. tauto.
-    + intros sc e HR HAE LS EX. assert (F := I c p LS EX). unfold fresh_at in *; unf. rewrite upd_same; simpl. rewrite HPC in F. tauto.
-    + intros sc HR HAE HSL LS EX.
+      assert (F := I c p LS EX). unfold fresh_at, cflight in *; unf. rewrite upd_same; simpl. rewrite HPC in F. tauto.
+    + intros sc HR LS EX. assert (F := I c p LS EX). unfold fresh_at, cflight in *; unf. rewrite upd_same; simpl. rewrite HPC in F. tauto.
+    + intros sc e HR HAE LS EX. assert (F := I c p LS EX). unfold fresh_at, cflight in *; unf. rewrite upd_same; simpl. rewrite HPC in F. tauto.
+    + intros sc HR HAE LS EX. rewrite listens_enter in LS.
       rewrite (listens_ext (register s c sc)) in LS by reflexivity. rewrite listens_register, Nat.eqb_refl in LS; simpl in LS.
-      apply orb_true_iff in LS. destruct LS as [LS | LS].
-      * assert (F := I c p LS EX). unfold fresh_at in *; unf. rewrite upd_same; simpl. rewrite HPC in F. tauto.
-      * exfalso. assert (X : In p (snapshot_list nd sc)) by (apply snapshot_list_spec; auto). rewrite HSL in X; auto.
-    + intros sc HR HAE HSL LS EX.
-      rewrite (listens_ext (register s c sc)) in LS by reflexivity. rewrite listens_register, Nat.eqb_refl in LS; simpl in LS.
-      apply orb_true_iff in LS. destruct LS as [LS | LS].
-      * assert (F := I c p LS EX). unfold fresh_at in *; unf. rewrite upd_same; simpl. rewrite HPC in F. tauto.
-      * assert (X : In p (snapshot_list nd sc)) by (apply snapshot_list_spec; auto).
-        unfold fresh_at; unf. rewrite upd_same; simpl. tauto.
-    + intros HR LS EX. assert (F := I c p LS EX). unfold fresh_at in *; unf. rewrite upd_same; simpl. rewrite HPC in F. tauto.
-  - (* build *) intros c0 sc q todo HT HPC LS EX. inversion HT; subst c0.
-    assert (F := I c p LS EX). unfold fresh_at in *; unf. rewrite upd_same; simpl. rewrite HPC in F.
-    simpl in F. destruct F as [F | [F | [F | [F | F]]]]; auto. subst q. right; right; right; right; auto.
-  - (* snapshot send *) intros c0 sc q v todo HT HPC LS EX. inversion HT; subst c0.
-    assert (V : v = cache s q).
-    { destruct (Nat.eq_dec v (cache s q)); auto. exfalso. apply G. exists c, sc, q, v, todo. auto. }
-    assert (LS' : listens s c p = true).
-    { revert LS. unfold after_snapshot. destruct todo; intros LS; erewrite listens_ext in LS; eauto. }
-    assert (F := I c p LS' EX). unfold fresh_at in F. rewrite HPC in F.
-    assert (X : fresh3 (log_add s c (EUpd q v)) c p \/ (q <> p /\ In p todo)).
-    { unfold fresh3; unf. rewrite upd_same, last_upd_app. destruct (pid_eqb q p) eqn:E.
-      - apply pid_eqb_eq in E. subst q v. auto.
-      - apply pid_eqb_neq in E. destruct F as [F | [F | [F | [F | [F _]]]]]; auto. contradiction. }
-    unfold after_snapshot. destruct todo as [| q' todo].
-    + destruct X as [X | [_ []]]. apply fresh3_fresh. unfold fresh3 in *; unf. rewrite ?upd_same in *. auto.
-    + destruct X as [X | [_ X]].
-      * apply fresh3_fresh. unfold fresh3 in *; unf. rewrite ?upd_same in *. auto.
-      * unfold fresh_at; unf. rewrite !upd_same; simpl. auto.
+      apply fresh_enter. apply orb_true_iff in LS. destruct LS as [LS | LS].
+      * left. assert (F := I c p LS EX). apply fresh_split in F. destruct F as [F | F].
+        -- unfold fresh3 in *; unf. auto.
+        -- unfold cflight in F. rewrite HPC in F. destruct F.
+      * right. apply (snapshot_list_spec nd sc p HAE). auto.
+    + intros HR LS EX. assert (F := I c p LS EX). unfold fresh_at, cflight in *; unf. rewrite upd_same; simpl. rewrite HPC in F. tauto.
+    + intros HR LS EX. assert (F := I c p LS EX). unfold fresh_at, cflight in *; unf. rewrite upd_same; simpl. rewrite HPC in F. tauto.
+  - (* module lock, nothing to send *) intros c0 sc m rest HT HPC HUL LS EX. inversion HT; subst c0.
+    rewrite listens_enter in LS. assert (F := I c p LS EX). apply fresh_enter. apply fresh_split in F.
+    destruct F as [F | F]; auto. unfold cflight in F. rewrite HPC in F. simpl in F. auto.
+  - (* module lock *) intros c0 sc m i todo rest HT HPC HUL LS EX. inversion HT; subst c0.
+    assert (F := I c p LS EX). unfold fresh_at, cflight in *; unf. rewrite upd_same; simpl. rewrite HPC in F. simpl in F. tauto.
+  - (* build *) intros c0 sc m i todo rest HT HPC LS EX. inversion HT; subst c0.
+    assert (F := I c p LS EX). unfold fresh_at, cflight in *; unf. rewrite upd_same; simpl. rewrite HPC in F. simpl in F. tauto.
+  - (* last initial update of a module *) intros c0 sc m i v rest HT HPC LS EX. inversion HT; subst c0.
+    assert (CV : cache s (m, i) = v) by (eapply V2; eauto).
+    rewrite listens_enter in LS. assert (F := I c p LS EX). apply fresh_enter. apply fresh_split in F.
+    unfold fresh3; unf. rewrite upd_same, last_upd_app.
+    destruct (pid_eqb (m, i) p) eqn:E; [apply pid_eqb_eq in E; subst p; left; left; congruence |]. apply pid_eqb_neq in E.
+    destruct F as [F | F]; [left; exact F |]. unfold cflight in F. rewrite HPC in F. simpl in F.
+    destruct F as [F | F]; [contradiction | right; exact F].
+  - (* initial update *) intros c0 sc m i v j todo rest HT HPC LS EX. inversion HT; subst c0.
+    assert (CV : cache s (m, i) = v) by (eapply V2; eauto).
+    assert (F := I c p LS EX). apply fresh_split in F. unfold fresh_at, fresh3, cflight in *; unf.
+    rewrite !upd_same, last_upd_app; simpl.
+    destruct (pid_eqb (m, i) p) eqn:E; [apply pid_eqb_eq in E; subst p; left; congruence |]. apply pid_eqb_neq in E.
+    destruct F as [F | F]; [tauto |]. rewrite HPC in F. simpl in F. destruct F as [F | F]; [contradiction | tauto].
   - (* reply *) intros c0 r HT HPC LS EX. inversion HT; subst c0.
-    assert (F := I c p LS EX). unfold fresh_at in *; unf. rewrite !upd_same; simpl.
-    rewrite last_upd_app. rewrite HPC in F. tauto.
+    assert (F := I c p LS EX). unfold fresh_at, cflight in *; unf. rewrite !upd_same; simpl.
+    rewrite last_upd_app. rewrite HPC in F. destruct r; simpl in *; tauto.
 Qed.
 
 Lemma fresh_upd_step : forall nd s u x, lock_inv s -> val_inv s -> fresh_inv nd s ->
@@ -292,20 +337,20 @@ Proof.
   apply (cstep_cases nd s (TU u, x)); simpl; try (intros; discriminate).
   - intros LS EX. apply I; auto.
   - (* start *) intros u0 HT HPC LS EX. inversion HT; subst u0.
-    unf. assert (F := I c p LS EX). unfold fresh_at in *; unf.
+    unf. assert (F := I c p LS EX). unfold fresh_at, cflight in *; unf.
     destruct F as [F | [[u' F] | [[u' [v [al [pe [F1 F2]]]]] | F]]]; auto.
     + right; left. exists u'. rewrite uth_next_upd_other by (intros ->; congruence); auto.
     + right; right; left. exists u', v, al, pe. rewrite uth_next_upd_other by (intros ->; congruence); auto.
   - (* store, exported *) intros u0 p0 v rest HT HPC HSC HUL HEX LS EX. inversion HT; subst u0.
     unf. destruct (pid_eqb p p0) eqn:E.
-    + apply pid_eqb_eq in E. subst p0. unfold fresh_at; unf. right; left. exists u. rewrite !upd_same; auto.
-    + apply pid_eqb_neq in E. assert (F := I c p LS EX). unfold fresh_at in *; unf. rewrite updp_other by auto.
+    + apply pid_eqb_eq in E. subst p0. unfold fresh_at, cflight; unf. right; left. exists u. rewrite !upd_same; auto.
+    + apply pid_eqb_neq in E. assert (F := I c p LS EX). unfold fresh_at, cflight in *; unf. rewrite updp_other by auto.
       destruct F as [F | [[u' F] | [[u' [w [al [pe [F1 F2]]]]] | F]]]; auto.
       * right; left. exists u'. rewrite !upd_other by (intros ->; congruence); auto.
       * right; right; left. exists u', w, al, pe. rewrite !upd_other by (intros ->; congruence); auto.
   - (* store, hidden *) intros u0 p0 v rest HT HPC HSC HUL HEX LS EX. inversion HT; subst u0.
     unf. assert (E : p <> p0) by (intros ->; congruence).
-    assert (F := I c p LS EX). unfold fresh_at in *; unf. rewrite updp_other by auto.
+    assert (F := I c p LS EX). unfold fresh_at, cflight in *; unf. rewrite updp_other by auto.
     destruct F as [F | [[u' F] | [[u' [w [al [pe [F1 F2]]]]] | F]]]; auto.
     + right; left. exists u'. rewrite uth_next_upd_other by (intros ->; congruence). simpl. rewrite upd_other by (intros ->; congruence); auto.
     + right; right; left. exists u', w, al, pe. rewrite uth_next_upd_other by (intros ->; congruence). simpl.
@@ -313,21 +358,21 @@ Proof.
   - (* no listeners *) intros u0 p0 HT HPC HL LS EX. inversion HT; subst u0.
     unf.
     assert (E : p <> p0). { intros ->. assert (LS0 : listens s c p0 = true) by exact LS. apply listeners_spec in LS0. rewrite HL in LS0. destruct LS0. }
-    assert (F := I c p LS EX). unfold fresh_at in *; unf.
+    assert (F := I c p LS EX). unfold fresh_at, cflight in *; unf.
     destruct F as [F | [[u' F] | [[u' [w [al [pe [F1 F2]]]]] | F]]]; auto.
     + right; left. exists u'. rewrite uth_next_upd_other by (intros ->; congruence); auto.
     + right; right; left. exists u', w, al, pe. rewrite uth_next_upd_other by (intros ->; congruence); auto.
   - (* listeners selected *) intros u0 p0 HT HPC HL LS EX. inversion HT; subst u0.
     unf. destruct (pid_eqb p p0) eqn:E.
-    + apply pid_eqb_eq in E. subst p0. unfold fresh_at; unf. right; right; left.
+    + apply pid_eqb_eq in E. subst p0. unfold fresh_at, cflight; unf. right; right; left.
       exists u, (cache s p), (listeners s p), (listeners s p). rewrite upd_same; simpl. split; auto. apply listeners_spec; exact LS.
-    + apply pid_eqb_neq in E. assert (F := I c p LS EX). unfold fresh_at in *; unf.
+    + apply pid_eqb_neq in E. assert (F := I c p LS EX). unfold fresh_at, cflight in *; unf.
       destruct F as [F | [[u' F] | [[u' [w [al [pe [F1 F2]]]]] | F]]]; auto.
       * right; left. exists u'. rewrite upd_other by (intros ->; congruence); auto.
       * right; right; left. exists u', w, al, pe. rewrite upd_other by (intros ->; congruence); auto.
   - (* last send *) intros u0 p0 v all pend HT HPC HIN HRM LS EX. inversion HT; subst u0.
     unf. assert (CV : cache s p0 = v) by (eapply V; eauto).
-    assert (F := I c p LS EX). unfold fresh_at in *; unf.
+    assert (F := I c p LS EX). unfold fresh_at, cflight in *; unf.
     destruct (Nat.eq_dec c x) as [-> | N]; [rewrite upd_same, last_upd_app | rewrite upd_other by auto].
     + destruct (pid_eqb p0 p) eqn:E; [apply pid_eqb_eq in E; subst p0; left; congruence |]. apply pid_eqb_neq in E.
       destruct F as [F | [[u' F] | [[u' [w [al [pe [F1 F2]]]]] | F]]]; auto.
@@ -342,7 +387,7 @@ Proof.
         -- right; right; left. exists u', w, al, pe. rewrite uth_next_upd_other; auto.
   - (* send *) intros u0 p0 v all pend HT HPC HIN HRM LS EX. inversion HT; subst u0.
     unf. assert (CV : cache s p0 = v) by (eapply V; eauto).
-    assert (F := I c p LS EX). unfold fresh_at in *; unf.
+    assert (F := I c p LS EX). unfold fresh_at, cflight in *; unf.
     destruct (Nat.eq_dec c x) as [-> | N]; [rewrite upd_same, last_upd_app | rewrite upd_other by auto].
     + destruct (pid_eqb p0 p) eqn:E; [apply pid_eqb_eq in E; subst p0; left; congruence |]. apply pid_eqb_neq in E.
       destruct F as [F | [[u' F] | [[u' [w [al [pe [F1 F2]]]]] | F]]]; auto.
@@ -356,10 +401,9 @@ Proof.
         -- right; right; left. exists u', w, al, pe. rewrite upd_other; auto.
 Qed.
 
-Lemma fresh_inv_step : forall nd s st, lock_inv s -> val_inv s -> fresh_inv nd s -> ~ stale_send s st ->
-  fresh_inv nd (cstep nd s st).
+Lemma fresh_inv_step : forall nd s st, lock_inv s -> val_inv s -> fresh_inv nd s -> fresh_inv nd (cstep nd s st).
 Proof.
-  intros nd s [[a | u] x] L V I G c p LS EX.
+  intros nd s [[a | u] x] L V I c p LS EX.
   - destruct (Nat.eq_dec a c) as [-> | N]; [apply fresh_own_step; auto |].
     destruct (isolation nd s a x c N) as [E1 [E2 [E3 [E4 [E5 _]]]]].
     rewrite E3 in LS. apply (fresh_at_frame s); auto.
@@ -367,49 +411,44 @@ Proof.
 Qed.
 
 (* ---- the run *)
-Fixpoint no_stale_send (nd : node) (s : state) (sched : list (tid * conn)) : Prop :=
-  match sched with
-  | [] => True
-  | st :: r => ~ stale_send s st /\ no_stale_send nd (cstep nd s st) r
-  end.
-
 Definition all_inv (nd : node) (s : state) : Prop := lock_inv s /\ val_inv s /\ fresh_inv nd s.
 
-Lemma all_inv_run : forall nd sched s, all_inv nd s -> no_stale_send nd s sched -> all_inv nd (run_from nd s sched).
+Lemma all_inv_step : forall nd s st, all_inv nd s -> all_inv nd (cstep nd s st).
 Proof.
-  intros nd sched. induction sched as [| st r IH]; simpl; intros s A G; auto.
-  destruct G as [G1 G2]. destruct A as [L [V I]]. apply IH; auto.
-  repeat split; [apply lock_inv_step | apply val_inv_step | apply fresh_inv_step]; auto.
+  intros nd s st [L [V I]]. repeat split; [apply lock_inv_step | apply val_inv_step | apply val_inv_step | apply fresh_inv_step]; auto.
 Qed.
 
 Lemma all_inv_init : forall nd cs us, all_inv nd (init cs us).
 Proof.
   intros. repeat split.
-  - intros u p [E | [v [al [pe E]]]]; simpl in E; discriminate.
+  - intros [c | u] m H; simpl in H; [destruct H |]. destruct H as [p [[E | [v [al [pe E]]]] _]]; simpl in E; discriminate.
   - intros u p v al pe E; simpl in E; discriminate.
+  - intros c sc m i v todo g E; simpl in E; discriminate.
   - intros c p L; unfold listens in L; simpl in L; discriminate.
 Qed.
 
 Definition conn_idle (s : state) (c : conn) : Prop :=
-  match c_pc (cth s c) with CBuild _ _ | CSendU _ _ _ _ => False | _ => True end.
+  match c_pc (cth s c) with CAcqU _ _ | CBuild _ _ _ _ | CSendU _ _ _ _ _ _ => False | _ => True end.
 Definition upd_idle (s : state) (u : nat) : Prop :=
   match u_pc (uth s u) with UBuild _ | USend _ _ _ _ => False | _ => True end.
 
-(* all schedules without a stale snapshot send: once no broadcast and no snapshot of this connection is in progress,
-   the last update message a listening connection holds for an exported parameter carries the cached value *)
+(* ALL schedules: once no broadcast and no snapshot of this connection is in progress, the last update message a
+   listening connection holds for an exported parameter carries the cached value *)
 Lemma quiescent_fresh : forall nd cs us sched c p,
-  no_stale_send nd (init cs us) sched ->
   let s := run nd cs us sched in
   listens s c p = true -> exported nd p = true ->
   (forall u, upd_idle s u) -> conn_idle s c ->
   last_upd p (logs s c) = Some (cache s p).
 Proof.
-  intros nd cs us sched c p G s. subst s. unfold run. intros LS EX UI CI.
-  destruct (all_inv_run nd sched (init cs us) (all_inv_init nd cs us) G) as [_ [_ I]].
+  intros nd cs us sched c p s. subst s. unfold run. intros LS EX UI CI.
+  assert (A : all_inv nd (run_from nd (init cs us) sched)).
+  { apply (run_invariant nd (all_inv nd)); [intros; apply all_inv_step; auto | apply all_inv_init]. }
+  destruct A as [_ [_ I]].
   destruct (I c p LS EX) as [F | [[u F] | [[u [v [al [pe [F _]]]]] | F]]]; auto.
   - specialize (UI u). unfold upd_idle in UI. rewrite F in UI. destruct UI.
   - specialize (UI u). unfold upd_idle in UI. rewrite F in UI. destruct UI.
-  - unfold conn_idle in CI. destruct (c_pc (cth (run_from nd (init cs us) sched) c)); try contradiction.
+  - unfold conn_idle in CI. unfold cflight in F.
+    destruct (c_pc (cth (run_from nd (init cs us) sched) c)); simpl in F; try contradiction. destruct r; destruct F.
 Qed.
 
 (* ---- every selected listener receives the message of a broadcast *)
@@ -424,8 +463,7 @@ Proof.
   apply (cstep_cases nd s st); simpl; intros; auto; try (unf; auto; fail);
     try (unf; destruct (Nat.eq_dec c c0) as [-> | N]; [rewrite upd_same; apply in_or_app; auto | rewrite upd_other; auto]; fail).
   - apply handle_cases; intros; subst r; unf; auto.
-  - unfold after_snapshot. destruct todo; unf;
-      (destruct (Nat.eq_dec c c0) as [-> | N]; [rewrite upd_same; apply in_or_app; auto | rewrite upd_other; auto]).
+
   - unf. destruct (Nat.eq_dec c (snd st)) as [-> | N]; [rewrite upd_same; apply in_or_app; auto | rewrite upd_other; auto].
   - unf. destruct (Nat.eq_dec c (snd st)) as [-> | N]; [rewrite upd_same; apply in_or_app; auto | rewrite upd_other; auto].
 Qed.
@@ -435,7 +473,7 @@ Proof.
   intros nd s st [D1 D2].
   assert (G : forall c e, In e (logs s c) -> In e (logs (cstep nd s st) c)) by (intros; apply logs_grow; auto).
   destruct st as [[a | u] x].
-  - destruct (conn_step_frame nd s a x) as [E1 [_ [_ E4]]]. split.
+  - destruct (conn_step_frame nd s a x) as [E1 [_ E4]]. split.
     + rewrite E4. intros. apply G. eapply D1; eauto.
     + rewrite E1. intros. destruct (D2 _ _ _ _ _ H c H0); auto.
   - revert G. apply (cstep_cases nd s (TU u, x)); simpl; intros; try discriminate; try (inversion H; subst u0; clear H); unfold release in *.
